@@ -14,7 +14,7 @@ from gwcs import wcs as gw
 
 PROP = "C02"
 LEAN_MODULE = "GwcsProofs.C02"
-SOURCES = ["GwcsModel/TExpr.lean", "GwcsProofs/C02.lean", "GwcsProofs/Lemmas/SepLemmas.lean"]
+SOURCES = ["GwcsModel/TExpr.lean", "GwcsProofs/C02.lean", "GwcsProofs/Lemmas/SepLemmas.lean", "GwcsProofs/C02b.lean"]
 THEOREMS = [
     "Gwcs.TExpr.inverse_comp",
     "Gwcs.TExpr.inverse_stack",
@@ -27,6 +27,9 @@ THEOREMS = [
     "Gwcs.TExpr.backward_inverse_is_forward",
     "Gwcs.TExpr.eval_chainL",
     "Gwcs.TExpr.backward_is_reversed_inverses",
+    "Gwcs.Sel.slicerEval_pointwise",
+    "Gwcs.Sel.slicer_round_trip",
+    "Gwcs.Sel.wrong_mapper_breaks",
 ]
 RULE = ("cases: (a) exact — pipelines of 1..5 steps of shifts / power-of-two scales / identities / permutations / stacks, some steps with a "
         "user-supplied inverse or without inverse: forward, both round trips, backward transform vs the step inverses composed by hand in "
